@@ -15,6 +15,7 @@ import (
 	"github.com/scrapli/scrapligo/driver/network"
 	"github.com/scrapli/scrapligo/driver/opoptions"
 	"github.com/scrapli/scrapligo/driver/options"
+	"github.com/scrapli/scrapligo/platform"
 	"github.com/scrapli/scrapligo/transport"
 	"github.com/scrapli/scrapligo/util"
 
@@ -177,6 +178,8 @@ func netHandler(d *devsim.CLI, mode, line string) devsim.Reply {
 		return devsim.Reply{NoPrompt: true, Raw: []byte("Proceed with install? [yes/no]: ")}
 	case line == "yes":
 		return devsim.Reply{Out: []devsim.Token{devsim.T("installing\r\ninstall DONE\r\n")}}
+	case strings.HasPrefix(line, "terminal "):
+		return devsim.Reply{}
 	case strings.HasPrefix(line, "show ") || strings.HasPrefix(line, "set ") || strings.HasPrefix(line, "ping "):
 		return devsim.Reply{Out: out(line)}
 	}
@@ -211,6 +214,27 @@ func newNetwork(mode string) func(cfg devsim.Config, to time.Duration, extra ...
 		o := baseOpts(conn, to, extra)
 		o = append(o, options.WithPrivilegeLevels(Levels()), options.WithDefaultDesiredPriv("privilege-exec"), options.WithAuthSecondary(Secret))
 		n, err := network.NewDriver(host, o...)
+		s := &Session{Conn: conn, CLI: cli, N: n}
+		if n != nil {
+			s.G = n.Driver
+		}
+		return s, err
+	}
+}
+
+// newPlatform builds a network driver from the embedded cisco_iosxe platform definition (on-open:
+// acquire-priv, two terminal commands; on-close: acquire-priv, exit).
+func newPlatform(mode string) func(cfg devsim.Config, to time.Duration, extra ...util.Option) (*Session, error) {
+	return func(cfg devsim.Config, to time.Duration, extra ...util.Option) (*Session, error) {
+		cli := newCLI(mode)
+		conn := devsim.NewConn(cli, cfg)
+		o := baseOpts(conn, to, extra)
+		o = append(o, options.WithAuthSecondary(Secret))
+		p, err := platform.NewPlatform("cisco_iosxe", host, o...)
+		if err != nil {
+			return &Session{Conn: conn, CLI: cli}, err
+		}
+		n, err := p.GetNetworkDriver()
 		s := &Session{Conn: conn, CLI: cli, N: n}
 		if n != nil {
 			s.G = n.Driver
@@ -487,6 +511,37 @@ func All() []*Scenario {
 				}
 				return "mode=" + mode(s) + " " + r.Result, nil
 			}, Later: lfP, LaterWant: lwP})
+	}
+	// platform (embedded cisco_iosxe definition: on-open acquire-priv + two commands)
+	{
+		mode := func(s *Session) string {
+			var m string
+			s.Conn.Do(func() { m = s.CLI.Mode })
+			return m
+		}
+		lfP := func(s *Session) (string, error) {
+			r, err := s.N.SendCommand("show later~", opoptions.WithTimeoutOps(5*time.Second))
+			if err != nil {
+				return "", err
+			}
+			return r.Result, nil
+		}
+		l = append(l, &Scenario{Name: "p.open-iosxe", Driver: "network", IsOpen: true, Quick: true, New: newPlatform("exec"),
+			Op: func(s *Session, _ ...util.Option) (string, error) {
+				err := openG(s)
+				if err != nil {
+					return "", err
+				}
+				var lines []string
+				s.Conn.Do(func() {
+					for _, l := range s.CLI.Lines {
+						if l.Line != "" && l.State == "cmd" {
+							lines = append(lines, l.Mode+":"+l.Line)
+						}
+					}
+				})
+				return "mode=" + mode(s) + " on-open=" + strings.Join(lines, "|"), nil
+			}, Later: lfP, LaterWant: ref("show later~", promptPriv, true)})
 	}
 	// NETCONF
 	{
